@@ -383,6 +383,10 @@ class Controller:
     # the service always asks algorithm 'RANDOM_SEARCH' for early stopping; for
     # studies listed here the harness algorithm answers instead.
     self.stub_studies = set()
+    # fault sites outside policy.suggest(): consumed by the next factory call
+    # ({'site': 'factory' | 'constructor', 'raise': <exception name>}).
+    self.factory_faults = collections.deque()
+    self.factory_fault_log = []
 
   def next_entry(self):
     with self.lock:
@@ -485,6 +489,12 @@ class HarnessPolicyFactory(pythia.PolicyFactory):
 
   def __call__(self, problem_statement, algorithm, policy_supporter, study_name):
     study_algo = getattr(problem_statement, 'algorithm', None)
+    if (algorithm == STUB or study_algo == STUB) and self._c.factory_faults:
+      f = self._c.factory_faults.popleft()
+      self._c.factory_fault_log.append(f)
+      # the algorithm cannot even be built: the exception keeps its own type
+      # (PythiaServicer only wraps what policy.suggest() raises)
+      raise EXC_TYPES[f['raise']](f'injected {f["raise"]} while building the policy ({f.get("site")})')
     if algorithm == STUB or study_algo == STUB:
       return StubPolicy(self._c, policy_supporter, problem_statement, study_name)
     if algorithm == 'RANDOM_SEARCH' and study_name in self._c.stub_studies:
